@@ -1,4 +1,5 @@
 use crate::common::Ctx;
+pub mod c08;
 pub mod c16;
 pub mod c12;
 pub mod c20;
@@ -38,6 +39,7 @@ pub fn dispatch(ctx: &mut Ctx) -> bool {
         "C20" => c20::run(ctx),
         "C12" => c12::run(ctx),
         "C16" => c16::run(ctx),
+        "C08" => c08::run(ctx),
         _ => return false,
     }
     true
